@@ -282,6 +282,8 @@ class Gen:
         if k == "all" and self.has("all") and self.env.can_use("all"):
             return self.all_expr(d)
         if k == "any" and self.has("comprehension") and self.env.can_use("any"):
+            if rng.random() < 0.3:
+                return "any(x < {} and {}[0] < x for x in {})".format(self.int_leaf(), self.list_expr(d + 1), self.n("xs"))
             return "any(x > {} for x in {})".format(self.int_leaf(), self.list_expr(d + 1))
         if k == "strcmp":
             return rng.choice(["{} == {}", "{} != {}", "{}.startswith({})", "{} in {}"]).format(self.str_expr(d + 1), self.str_expr(d + 1))
@@ -301,7 +303,27 @@ class Gen:
 
     def all_expr(self, d: int) -> str:
         rng = self.rng
-        k = rng.choice(["one", "filter", "two", "attr"])
+        k = rng.choice(["one", "filter", "two", "attr", "truthy", "truthy_get", "guard_inside", "guard_inside2", "star_inside", "dstar_inside",
+                        "star_comp_in_iter"])
+        if k == "star_inside" and self.has("star"):
+            # starred / double-starred call arguments that depend on the loop variable
+            return "all(total(*[x, {}]) > {} for x in {})".format(self.int_leaf(), self.int_leaf(), self.list_expr(d + 1))
+        if k == "dstar_inside" and self.has("star"):
+            return "all(total({}, **{{'m': x}}) > {} for x in {})".format(self.int_leaf(), self.int_leaf(), self.list_expr(d + 1))
+        if k == "star_comp_in_iter" and self.has("star"):
+            return "all(x > {} for x in [total({}, *[y for y in {} if y > {}]), {}])".format(
+                self.int_leaf(), self.int_leaf(), self.list_expr(d + 1), self.int_leaf(), self.int_leaf())
+        if k == "truthy":
+            # elements that are not booleans
+            return "all(x for x in {})".format(self.list_expr(d + 1))
+        if k == "truthy_get":
+            return "all({}.get(k) for k in {})".format(self.n("d"), self.n("d"))
+        if k == "guard_inside":
+            # a guarded element: the second operand is only defined when the first holds
+            return "all(x > {} and {}[0] > x for x in {})".format(self.int_leaf(), self.list_expr(d + 1), self.n("xs"))
+        if k == "guard_inside2":
+            return "all(x == {i} or {k!r} in {d} and {d}[{k!r}] > x for x in {xs})".format(i=self.int_leaf(), k=rng.choice(["k", "m"]), d=self.n("d"),
+                                                                                          xs=self.list_expr(d + 1))
         if k == "one":
             return "all(x {} {} for x in {})".format(rng.choice([">", "<", "!="]), self.int_leaf(), self.list_expr(d + 1))
         if k == "filter":
@@ -329,11 +351,26 @@ class Gen:
             "({xs} != [] and max({xs}) > {i})" if self.env.can_use("max") else "({xs} and {xs}[0] > {i})",
             "({k!r} in {d} and {k2!r} in {d} and {d}[{k!r}] < {d}[{k2!r}])",
             "(len({xs}) > 0 and len({xs}) > 1 and {xs}[0] < {xs}[1])" if self.env.can_use("len") else "({xs} and {xs}[0] > {i})",
+            # parts of a comprehension Python evaluates per iteration only (never for an empty outer iterable)
+            "(not all(x + y > {i} for x in {xs} for y in [{o}.items[0], {i2}]))",
+            "any(x > {i} for x in [x + y for x in {xs} for y in [{d}[{k!r}]] if x != y])",
+            "len([x for x in {xs} if {o}.items[0] > x]) > {i}",
+            "len({{x: {d}[{k!r}] for x in {xs}}}) > {i}",
+            # the VALUE of an `or` whose first operand is truthy but not a bool; the skipped operand may be undefined
+            "(({a} or {xs}[0]) > {i})",
+            "(twice({a} or {d}[{k!r}]) > {i})",
+            "(({s} or {xs}[0]) == {k!r})",
+            "(({xs} or {o}.items[0]) == {i})",
+            "(not ({a} or {b} // ({a} - {a})))",
+            "(all(x for x in {xs}) and len({xs}) > {i})" if self.env.can_use("len") and self.env.can_use("all") else "({xs} and {xs}[0] > {i})",
+            "(all(x > {i} and {o}.items[0] > x for x in {xs}))" if self.env.can_use("all") else "({xs} and {xs}[0] > {i})",
+            "(all(x for x in {xs}) or {a} > {i})" if self.env.can_use("all") else "({xs} and {xs}[0] > {i})",
+            "len([x for x in {xs} if x > {i} and {o}.items[x] > 0]) > {i2}" if self.env.can_use("len") else "({xs} and {xs}[0] > {i})",
         ]
         if self.env.with_none:
             opts += ["({n} is None or {n} + 1 > {i})", "({n} is not None and {n} * 2 > {i})", "({n} is not None and {xs} and {xs}[0] > {n})"]
         t = rng.choice(opts)
-        return t.format(xs=xs, d=dd, o=o, a=a, b=b, n=nn, i=self.int_leaf(), i2=self.int_leaf(), k=rng.choice(["k", "m"]), k2=rng.choice(["z", "v"]))
+        return t.format(xs=xs, d=dd, o=o, a=a, b=b, n=nn, s=self.n("s"), i=self.int_leaf(), i2=self.int_leaf(), k=rng.choice(["k", "m"]), k2=rng.choice(["z", "v"]))
 
     def condition(self) -> str:
         r = self.rng.random()
